@@ -24,7 +24,7 @@ MANIFEST = {
              'C15_table_composable_sound / C15_table_unity_sound against the regenerated table (declaring mean composable breaks the proof with no input); '
              'C15_skipna_ignores_missing / _all_missing / C15_noskip_propagates_or_rejects; C15_argminmax_refinement + C15_argminmax_first_extreme (first position of the extreme value) + C15_loc_is_label_at_iloc; '
              'C15_cum_keeps_shape / C15_cum_refinement; C15_layout_independent. Refuted/C15.v: four vm_compute witnesses where the faithful M leaves S (known findings). '
-             'Correspondence: public Frame calls (every function x axis x skipna x ddof, every block layout of every int/float/bool kind tuple up to width 2 plus eight tuples of width 3 (quick) / 4 (thorough), '
+             'Correspondence: public Frame calls (every function x axis x skipna x ddof, every block layout of every int/float/bool kind tuple up to width 2 plus eight tuples of width 3 (quick) / up to width 3 plus ten tuples of width 4 (thorough), '
              '0- and 1-sized axes, random wider frames, labels of the result), TypeBlocks.ufunc_axis_skipna called directly with the flag combinations container.py never passes, '
              'Series reductions against the one-line spec, string / datetime frames against their per-line Series, all evaluated inside Coq by vm_compute (M and S) on the observed inputs.'),
     'note': ('trusted: Coq kernel; the hand-written model M (tied to the code by the differential runs of this run and by the regenerated table); the harness; NumPy itself as the oracle of '
@@ -42,7 +42,7 @@ REFUTED_FILES = ['Refuted/C15.v']
 MODEL_FILES = ['SF/Reduce.v', 'Gen/Gen_c15_table.v']
 IMPORTS = ('Require Import SF.Prelude SF.Value SF.Dtype SF.Reduce Gen.Gen_c15_table.\n'
            'From Coq Require Import QArith.\nLocal Open Scope Z_scope.')
-RULE = ('api:reduce-all-layouts: every kind tuple over {int64,float64(NaN),bool} up to width 2 + 8 tuples of width 3 (quick) / all up to width 4 (thorough) x EVERY block layout x 10 functions x 2 axes x skipna on/off, fixed data with NaN; '
+RULE = ('api:reduce-all-layouts: every kind tuple over {int64,float64(NaN),bool} up to width 2 + 8 tuples of width 3 (quick) / all up to width 3 + 10 tuples of width 4 (thorough) x EVERY block layout x 10 functions x 2 axes x skipna on/off, fixed data with NaN; '
         'api:reduce-small-axes: 0 and 1 rows x 0..2(3) columns x every layout, and 0 columns x 2,3 rows; api:reduce-numeric / api:argminmax / api:cumulative: random frames (1-5 columns, 1-8 rows, values in {-3..4, .5, NaN}, random layout, ddof in {-1,0,1,2,3}); '
         'kernel: TypeBlocks.ufunc_axis_skipna with composable and size_one_unity both ways; api:series-reduce: one column as a Series; api:parity-str-datetime: every layout of 1-2(3) string / datetime64 columns; api:malformed-axis: axis 2,3 must raise; '
         'api:known-witness: one fixed input per known finding. A case is non-trivial when the frame has several blocks or several rows (kernel: when a flag differs from container.py); distinct = distinct (call, data, layout).')
@@ -137,10 +137,6 @@ def generate(repo):
 
 
 # ----------------------------------------------------------------------------- literals
-def _cell(v):
-    return lit.val(v)
-
-
 def _blocks_lit(cols, layout):
     '''list vblk literal from columns + layout.'''
     out, pos = [], 0
@@ -216,8 +212,8 @@ def classify_reduce(cols, layout, r, fn, axis, skipna):
         return F_ZERO_COLS
     multi = len(layout) > 1
     rk = _row_kind(cols)
-    if r == 0 and fn in ('all', 'any'):
-        return F_ZERO_ROWS_LOGICAL
+    if r == 0 and fn in ('all', 'any') and (axis == 1 or not multi or any(is2d for _, is2d in layout)):
+        return F_ZERO_ROWS_LOGICAL      # (axis 0 over 1-D blocks only goes through the scalar path and is right)
     if (multi and axis == 0 and not skipna and fn in UNITY and r == 1 and any(w == 1 for w, _ in layout)
             and not (rk == 'b' and fn in ('sum', 'prod', 'min', 'max'))):      # a bool `out` accepts the size-1 array
         return F_ONE_ROW
@@ -331,7 +327,7 @@ def _labels(rng, r, m):
 def api_numeric(ctx):
     """random numeric frames (int64 / float64 with NaN / bool), random layout, every function, both axes, skipna on/off"""
     rng = ctx.rng
-    for _ in range(ctx.n(36, 700)):
+    for _ in range(ctx.n(36, 300)):
         m = rng.randint(1, 5)
         kinds = [rng.choice('iiffggb') for _ in range(m)]
         r = rng.choice((1, 2, 2, 3, 4, 4, 5, 8))
@@ -364,20 +360,26 @@ _FIXED = {   # deterministic columns per kind, 4 rows; a NaN in the float column
 _QUICK_W3 = {('i', 'f', 'f'), ('f', 'f', 'f'), ('b', 'b', 'b'), ('i', 'i', 'f'), ('f', 'i', 'i'), ('f', 'b', 'i'), ('b', 'f', 'f'), ('i', 'i', 'i')}
 
 
+_THOROUGH_W4 = {('f', 'f', 'f', 'f'), ('i', 'i', 'i', 'i'), ('b', 'b', 'b', 'b'), ('i', 'f', 'f', 'i'), ('f', 'i', 'i', 'f'), ('i', 'i', 'f', 'f'),
+                ('f', 'f', 'i', 'b'), ('b', 'b', 'f', 'f'), ('f', 'b', 'b', 'i'), ('i', 'f', 'i', 'f')}
+
+
 def api_all_layouts(ctx):
     """EVERY block layout of every kind tuple (int/float/bool) up to a width, fixed data, every function/axis/skipna"""
     width = 3 if ctx.tier == 'quick' else 4
     for m in range(1, width + 1):
         for kinds in itertools.product('ifb', repeat=m):
             if ctx.tier == 'quick' and m == 3 and kinds not in _QUICK_W3:
-                continue        # quick: a selection of the width-3 tuples; thorough: all up to width 4
+                continue        # quick: a selection of the width-3 tuples; thorough: all up to width 3
+            if m == 4 and kinds not in _THOROUGH_W4:
+                continue        # width 4: a selection (34 layouts for four equal dtypes)
             seen = {}
             cols = []
             for k in kinds:
                 j = seen.get(k, 0)
                 seen[k] = j + 1
                 cols.append(_FIXED[k][j % 2] if j < 2 else _FIXED[k][0][::-1].copy())
-            for r in ((2, 4) if ctx.tier == 'thorough' else (3,)):
+            for r in (((2, 4) if m < 4 else (3,)) if ctx.tier == 'thorough' else (3,)):
                 cs = [c[:r].copy() for c in cols]
                 index, columns = _labels(None, r, m)
                 for layout in zoo.layouts_for([c.dtype for c in cs]):
@@ -393,6 +395,8 @@ def api_small_axes(ctx):
         for m in range(0, 4 if ctx.tier == 'thorough' else 3):
             for kinds in itertools.product('ifb', repeat=m):
                 if ctx.tier == 'quick' and m == 2 and kinds not in (('i', 'f'), ('f', 'f'), ('b', 'b'), ('f', 'b'), ('i', 'i')):
+                    continue
+                if m == 3 and kinds not in _QUICK_W3:
                     continue
                 cols = [_FIXED[k][i % 2][:r].copy() for i, k in enumerate(kinds)]
                 index, columns = _labels(None, r, m)
@@ -547,9 +551,6 @@ def known_witnesses(ctx):
 
 
 # ----------------------------------------------------------------------------- kernel level and Series level
-_NP = None
-
-
 def _ufuncs(fn, ddof):
     from functools import partial
     from static_frame.core import util as u
@@ -572,7 +573,7 @@ def kernel_cases(ctx):
     from static_frame.core.type_blocks import TypeBlocks
     table = _extract_table(os.environ.get('SF_REPO', '/repo'))
     rng = ctx.rng
-    for _ in range(ctx.n(24, 400)):
+    for _ in range(ctx.n(24, 150)):
         m = rng.randint(2, 5)
         kinds = [rng.choice('iiffggb') for _ in range(m)]
         if set(kinds) != {'b'} and 'b' in kinds and rng.random() < .7:
@@ -645,8 +646,6 @@ def series_cases(ctx):
             else:
                 term = f'check_series {COQ_F[fn]} {lit.b(skipna)} {lit.z(ddof)} {cells} {obs}'
             tags = {'fn': fn, 'skipna': skipna, 'series': True}
-            if r == 0 and fn in ('all', 'any'):
-                pass
             ctx.count(f'series:fn:{fn}', f'series:rows:{min(r, 5)}')
             yield Case('api:series-reduce', {'call': f'Series.{fn}({", ".join(f"{a}={b}" for a, b in kw.items())})',
                                              'values': _j(c.tolist()), 'dtype': str(c.dtype), 'observed': seen},
